@@ -2,6 +2,7 @@ import TxVerif.Props.C07
 import TxVerif.Tie.Skeleton
 import TxVerif.Props.C04C07Engine
 import TxVerif.Props.C03History
+import TxVerif.Props.Lifetime
 open TxVerif
 #print axioms abort_is_identity
 #print axioms next_tx_identical
@@ -31,3 +32,11 @@ open TxVerif
 #print axioms c03_history_untouched
 #print axioms c07_history_restored
 #print axioms c07_history_next_identical
+#print axioms lifetime_invariant
+#print axioms lifetime_invariant_created
+#print axioms c07u_abort_identity_engine
+#print axioms c07u_failed_commit_identity_engine
+#print axioms c07u_next_tx_identical
+#print axioms c07u_next_tx_identical_failed
+#print axioms runTxnO_of_not_commitsU
+#print axioms lifetime_abort_restores
